@@ -135,6 +135,12 @@ func keepAliveOne(g *gen, fr map[string]interface{}) vh.Event {
 	// did this process keep time?  A goroutine that sleeps 5 ms at a time records by how much it overslept at worst:
 	// on a machine that is too busy to schedule it, stop times say nothing about the code under test
 	var late int64
+	noteLate := func(due time.Time) {
+		// the driver's own scheduled events (data sends, the path going dark) count too
+		if d := int64(time.Since(due) / time.Millisecond); d > atomic.LoadInt64(&late) {
+			atomic.StoreInt64(&late, d)
+		}
+	}
 	go func() {
 		for ctx.Err() == nil {
 			a := time.Now()
@@ -164,6 +170,7 @@ func keepAliveOne(g *gen, fr map[string]interface{}) vh.Event {
 				return
 			case <-time.After(time.Until(t0.Add(time.Duration(t) * kaTick))):
 			}
+			noteLate(t0.Add(time.Duration(t) * kaTick))
 			sctx, c := context.WithTimeout(ctx, kaTick)
 			switch fr["data"] {
 			case "AB":
@@ -185,6 +192,7 @@ func keepAliveOne(g *gen, fr map[string]interface{}) vh.Event {
 			case <-ctx.Done():
 			case <-time.After(time.Until(t0.Add(time.Duration(h)*kaTick + kaTick/2))):
 				atomic.StoreInt32(&px.dark, 1)
+				noteLate(t0.Add(time.Duration(h)*kaTick + kaTick/2))
 			}
 		}()
 	}
